@@ -24,7 +24,7 @@ from odl.tomo.util import utility as UT
 from mc.ref import geom_ref as G
 
 PROPERTY = 'C19'
-BUDGET = {'quick': 600, 'thorough': 3600}
+BUDGET = {'quick': 1500, 'thorough': 3600}
 TOL = 1e-12
 PI = math.pi
 
